@@ -180,8 +180,12 @@ def sec_selfcheck(rep, seed):
 
 
 def run(rep, tier, seed, only=None):
+    from pvc.core import lean_lemmas
+
+    if not only and rep.replay_target is None:
+        rep.add(lean_lemmas("C03", ["loc_eq_delta_sub_primitive"], tier))
     rep.assume(
-        "L-FTC: d/dz loc = -sing on (0,1) with loc(0+) the delta coefficient is 'loc = delta - int_0^z sing' (fundamental theorem of calculus for these elementary terms); not machine-checked",
+        "L-FTC: d/dz loc = -sing on (0,1) with loc(0+) the delta coefficient is 'loc = delta - int_0^z sing' -- machine-checked by Lean 4 + Mathlib in the thorough tier (lemmas/Lemmas.lean, theorem loc_eq_delta_sub_primitive: loc continuous on [0,z], sing integrable); an assumption in the quick tier",
         "A-special: special.li2 / nielsen are the atoms Li2, S_{n,p} (derivative rule for Li2); A-ext: LeProHQ, adani, N3LO splines, scipy spence(=Li2(1-u), with its derivative rule) uninterpreted and assumed finite",
         f"tolerances: tau={TAU_FIT} (largest residual coefficient / largest coefficient over the common denominator) for the fitted NNLO/N3LO parametrisations, {TAU_EXACT} elsewhere",
         "heavy NC sites are evaluated above the hadronic threshold (below: C09); heavy CC with the slow-rescaling point inside (0,1)",
